@@ -2,3 +2,6 @@ import engine_check
 def run(ctx):
     engine_check.run(ctx, "C03", sanitize_thorough=True)
     ctx.note("partial w.r.t. raw memory: the theorem covers API-level accesses of the model; raw reads through current() in the C++ are validated by ASan on exact-size heap buffers (thorough tier) and by the bounds hook")
+
+def replay(j):
+    return engine_check.replay(j)
